@@ -38,6 +38,112 @@ def denied(leaf: str) -> Optional[str]:
     return None
 
 
+def check_own_executable(ctx, fn: ast.AST) -> None:
+    rule = "C16.R9-own-executable"
+    cfg = CFG(fn)
+    # the configuration whose 'executable' is hashed: <x>.get_component_configuration(...) assigned to a local that is read with
+    # .get('command') / ['command']
+    fetches = [n for n in cfg.nodes if n.kind == "stmt" and isinstance(n.ast, ast.Assign) and isinstance(n.ast.value, ast.Call)
+               and last_attr(n.ast.value) in ("get_component_configuration", "configurationForNode")
+               and len(n.ast.targets) == 1 and isinstance(n.ast.targets[0], ast.Name)]
+    used = []
+    for n in fetches:
+        var = n.ast.targets[0].id
+        if any(isinstance(x, ast.Constant) and x.value == "executable" for d in source.walk_own(fn) if isinstance(d, ast.Dict)
+               for k, v in zip(d.keys, d.values) if isinstance(k, ast.Constant) and k.value == "executable" and var in source.names_in(v)
+               for x in [k]):
+            used.append(n)
+    if not used:
+        ctx.ob(rule, fn, False, "the hashed executable is not read from a configuration fetched with get_component_configuration(..): it "
+               "cannot be shown to be the component's own, variable-substituted, pre-resolution executable",
+               construct="executable <- get_component_configuration(own blueprint, raw=False)")
+        return
+    for n in used:
+        call = n.ast.value
+        kw = {k.arg: k.value for k in call.keywords}
+        # (a) variables substituted
+        raw = kw.get("raw")
+        if last_attr(call) == "get_component_configuration":
+            ok = raw is None or (isinstance(raw, ast.Constant) and raw.value is False)
+        else:
+            ok = isinstance(raw, ast.Constant) and raw.value is False
+        ctx.ob(rule, call, ok, "the executable is read from the configuration with variables substituted (raw=False)" if ok else
+               "the executable is read with raw=%s: '%%(tool)s' is hashed as written, so two components whose variable selects different "
+               "programs get the same hash and the same program spelled through different variables (or literally) gets different ones"
+               % (short(raw, 20) if raw is not None else "<default of configurationForNode>"), construct="get_component_configuration(raw=False) for the executable")
+        # (b) the name under which the configuration is looked up
+        ident = kw.get("comp_id") or (call.args[0] if call.args else None)
+        name_expr = None
+        here = n.id
+        for _ in range(4):
+            if isinstance(ident, ast.Tuple) and len(ident.elts) == 2:
+                name_expr = ident.elts[1]
+                break
+            if isinstance(ident, ast.Name):
+                rd = flow.reaching_defs(cfg, ident.id).get(here, frozenset())
+                vals = [(d, flow.def_value(cfg, d, ident.id)) for d in rd if d >= 0]
+                if len(vals) == 1 and vals[0][1] is not None:
+                    here, ident = vals[0]
+                    continue
+            break
+        ctx.require(name_expr is not None, "cannot find the (stage, name) identifier passed to get_component_configuration")
+
+        def is_own_name(e: ast.AST) -> bool:
+            return isinstance(e, ast.Attribute) and e.attr == "componentName"
+
+        # membership tests of the own (stage, name) in the identifiers of the unreplicated description: label on which it is ABSENT
+        def absent_label(t: ast.AST) -> Optional[str]:
+            cp = match.compare_parts(t)
+            if cp and isinstance(cp[1], (ast.In, ast.NotIn)) and any(isinstance(c, ast.Call) and last_attr(c) in (
+                    "get_component_identifiers", "_get_real_component_identifiers") for c in ast.walk(match.resolve_local(fn, cp[2]))):
+                return "T" if isinstance(cp[1], ast.NotIn) else "F"
+            return None
+        absent = match.test_nodes(cfg, absent_label)
+        bad: List[str] = []
+        n_defs = 0
+        seen = set()
+        work = [(here, name_expr)]
+        while work:
+            at, e = work.pop()
+            if (at, id(e)) in seen:
+                continue
+            seen.add((at, id(e)))
+            if is_own_name(e):
+                continue
+            if isinstance(e, ast.Name):
+                rd = flow.reaching_defs(cfg, e.id).get(at, frozenset())
+                for d in rd:
+                    v = flow.def_value(cfg, d, e.id) if d >= 0 else None
+                    if v is None:
+                        bad.append("'%s' is not defined by a plain assignment" % e.id)
+                        continue
+                    n_defs += 1
+                    if not is_own_name(v) and not isinstance(v, ast.Name):
+                        # a shortening: allowed form <name>[:-len(<suffix>)] on the absent side of the membership test
+                        sliced = isinstance(v, ast.Subscript) and isinstance(v.slice, ast.Slice) and v.slice.lower is None \
+                            and isinstance(v.slice.upper, ast.UnaryOp) and isinstance(v.slice.upper.op, ast.USub) \
+                            and isinstance(v.slice.upper.operand, ast.Call) and call_name(v.slice.upper.operand) == "len"
+                        guarded = bool(absent) and match.only_via_edges(cfg, cfg.nodes[d], absent)
+                        if not sliced:
+                            bad.append("%s derives the blueprint name from the spelling of the component's name" % short(v, 60))
+                            continue
+                        if not guarded:
+                            bad.append("%s shortens the name although the component may exist under its own name" % short(v, 60))
+                            continue
+                        work.append((d, v.value))
+                        continue
+                    work.append((d, v))
+                continue
+            bad.append("%s is not the component's own name" % short(e, 60))
+        ok = not bad
+        ctx.ob(rule, call, ok,
+               "the configuration is looked up under the component's own name, shortened only by its replica suffix when the name is "
+               "not itself a component of the unreplicated description" if ok else
+               "the component whose executable is hashed is chosen by the spelling of the name (%s): a component called 'run2' is hashed "
+               "with the executable of 'run', and 'step7' without a component 'step' gets no hash at all - the hash depends on component "
+               "names" % "; ".join(bad), construct="blueprint of the hashed executable <- own name / replica suffix by existence")
+
+
 def run(ctx) -> None:
     ctx.explanation = (
         "Non-interference by a backward data slice (field-sensitive on constant dictionary keys, local functions inlined, "
@@ -57,6 +163,9 @@ def run(ctx) -> None:
     ctx.rule("C16.R8-stateless-computation", "_compute_memoization_info, its helpers and _memoization_info_to_hash keep no state on the "
                                              "component between computations (a failed attempt is retried later; anything remembered from "
                                              "it - e.g. file digests - would make the hash depend on history, not on the current contents)")
+    ctx.rule("C16.R9-own-executable", "the executable that is hashed is the component's own, after variable substitution: the configuration "
+             "is fetched with raw=False, for the component's own name - shortened only by the replica index of the component and only "
+             "when that name is not itself a component of the unreplicated description (never by stripping characters off the name)")
     ctx.assume("the slice is flow-insensitive: a name reused for two purposes merges their sources (over-approximation)")
     ctx.assume("arguments of method calls are treated as selectors (which object/entry), not as data")
 
@@ -319,6 +428,9 @@ def run(ctx) -> None:
                "earlier (possibly failed) attempt is re-used after the files changed, so the hash no longer identifies the "
                "current contents" % (f.name, short(where, 70)), construct="%s is stateless" % f.name)
     ctx.floor("C16.R8-stateless-computation", n8, 100, "AST nodes of the hash computation inspected")
+
+    # ---------------- R9 -------------------------------------------------------------------------------
+    check_own_executable(ctx, fn)
 
     # ---------------- R7 -------------------------------------------------------------------------------
     reset = g.func("ComponentSpecification.memoization_reset")
